@@ -1,5 +1,6 @@
 import QipVerif.Lemmas.QasmExportSem
 import QipVerif.Lemmas.QasmMat
+import QipVerif.Lemmas.QasmExportTop
 /-!
 # C10 — exported OpenQASM is valid OpenQASM 2.0 and denotes the same circuit
 
@@ -56,7 +57,7 @@ example : GoodCircuit ⟨3, 0, [
 
 /-- **Refusal.** A circuit containing a gate that has neither a QASM name nor an emitted
 definition is not exported: the exporter raises. -/
-theorem export_refuses (c : Circuit) (g : Gate) (hg : Op.gate g ∈ c.ops)
+theorem export_refuses (c : Circuit) (g : Export.Gate) (hg : Op.gate g ∈ c.ops)
     (hb : lookup Gen.gateNameToQasm g.name = none) (hd : lookup Gen.qasmDefns g.name = none) :
     ∃ e, exportCircuit c = .error e := by
   obtain ⟨e, he⟩ := defsLoop_refuses c.ops Gen.gateNameToQasm (fun k hk => Or.inl hk) g hg hb hd
@@ -102,6 +103,43 @@ theorem exportDef_eq_defOf : exportDef = defOf := rfl
 theorem base_names_are_qelib1 :
     ∀ e ∈ Gen.gateNameToQasm, e.2 = cs!"U" ∨ (qelib1.find? (fun d => d.name == e.2)).isSome = true := by
   decide
+
+/-! ### The exported program has the circuit's unitary -/
+
+/-- **Unitary of the exported program (class `GoodCircuit`, every register size, every length).**
+The text the exporter emits is parsed by the strict recogniser to a program `P`; the standard's
+denotation `denote P` — static semantics, then expansion of every call down to the built-ins
+`U(θ,φ,λ) = Rz(φ)Ry(θ)Rz(λ)` and `CX` over `qelib1.inc` and the emitted definitions — is a list of
+unconditioned built-ins on a `c.N`-qubit register whose product `A` (central embedding algebra,
+`Tg.embed`) equals the circuit's unitary `B = denX c.N (gates of c)` up to ONE global phase
+(the product of the phases of the individual gates).  `denX` is the complex denotation of the
+circuit IR (`denG`, Lemmas/Sem.lean) extended by `QASMU` (generated matrix `Gen.G.qasmu_gate_`);
+see `export_den_G` for circuits without `QASMU`.  Proof: naturality of the standard's expansion
+in qubits and parameters + localisation (`denP_relabel`) + the per-definition identities
+(`definitions_sound`, C04 `shortcut_sound`) transported to the embedding algebra. -/
+theorem export_den (c : Circuit) (hc : GoodCircuit c) :
+    ∃ lines P ops A B, exportCircuit c = .ok lines ∧ parseLines lines = some P ∧
+      denote P = .ok (c.N, (cregsOf c.numCbits).total, ops) ∧
+      denOps c.N ops = some A ∧ denX c.N (c.ops.filterMap xOfOp) = some B ∧ PhaseEqN A B :=
+  export_den_ops c hc
+
+/-- **… in terms of the circuit IR.**  For a circuit of the class without `QASMU`, let `irList c.ops 0`
+be its gates in the circuit IR (`QipVerif.Gate`: same names, controls, targets; the parameter of the
+gate at position `i` is the symbol `i`) and `ρ` any valuation giving each symbol the value of that
+parameter.  Then the unitary of the exported program equals `denG c.N ρ (irList c.ops 0)` — the
+specification object of C01/C03/C07/C13 — up to one global phase. -/
+theorem export_den_G (c : Circuit) (hc : GoodCircuit c)
+    (hq : ∀ g, Op.gate g ∈ c.ops → g.name ≠ cs!"QASMU")
+    (ρ : ℕ → ℝ) (hρ : ∀ i, i < c.ops.length → ρ i = paramAt c.ops i) :
+    ∃ lines P ops A B, exportCircuit c = .ok lines ∧ parseLines lines = some P ∧
+      denote P = .ok (c.N, (cregsOf c.numCbits).total, ops) ∧
+      denOps c.N ops = some A ∧ denG c.N ρ (irList c.ops 0) = some B ∧ PhaseEqN A B := by
+  obtain ⟨lines, P, ops, A, B, h1, h2, h3, h4, h5, h6⟩ := export_den_ops c hc
+  refine ⟨lines, P, ops, A, B, h1, h2, h3, h4, ?_, h6⟩
+  rw [← denX_irList c.N ρ c.ops 0 (fun op hop => by
+    obtain ⟨g, rfl, hg⟩ := hc op hop
+    exact ⟨g, rfl, hg, hq g hop⟩) (fun i hi => by simpa using hρ i hi)]
+  exact h5
 
 /-! ### Counter-examples to the unrestricted statement (recorded findings) -/
 
